@@ -177,8 +177,8 @@ mod verif_kani {
         let mut src = &f[..cut];
         let mut dec = FrameDecoder::new();
         let r0 = dec.reset(&mut src);
-        if cut < 6 { assert!(r0.is_err()); return; }
-        r0.unwrap();
+        if cut < 6 { assert!(r0.is_err()); core::mem::forget(r0); core::mem::forget(dec); return; }
+        match r0 { Ok(()) => {}, Err(e) => { core::mem::forget(e); assert!(false); } }
         let one_by_one: bool = kani::any();
         let mut out = [0u8; 8];
         let mut n = 0usize;
@@ -186,12 +186,12 @@ mod verif_kani {
         if one_by_one {
             let mut k = 0;
             while k < 2 && !failed && !dec.is_finished() {
-                match dec.decode_blocks(&mut src, BlockDecodingStrategy::UptoBlocks(1)) { Ok(_) => {}, Err(_) => failed = true }
+                match dec.decode_blocks(&mut src, BlockDecodingStrategy::UptoBlocks(1)) { Ok(_) => {}, Err(e) => { failed = true; core::mem::forget(e); } }
                 n += dec.read(&mut out[n..]).unwrap();
                 k += 1;
             }
         } else {
-            match dec.decode_blocks(&mut src, BlockDecodingStrategy::All) { Ok(_) => {}, Err(_) => failed = true }
+            match dec.decode_blocks(&mut src, BlockDecodingStrategy::All) { Ok(_) => {}, Err(e) => { failed = true; core::mem::forget(e); } }
             n += dec.read(&mut out[n..]).unwrap();
         }
         if cut == 15 {
@@ -207,6 +207,93 @@ mod verif_kani {
         let i: usize = kani::any();
         kani::assume(i < n);
         assert!(out[i] == want[i]);
+        core::mem::forget(dec);
+    }
+
+    fn skeleton_cut<const CUT: usize, const ONE_BY_ONE: bool>() {
+        let mut f: [u8; 15] = [0x28, 0xB5, 0x2F, 0xFD, 0x00, 0x00, (3 << 3) | (1 << 1), 0, 0, 0xAA, (2 << 3) | 1, 0, 0, 1, 2];
+        let pay: [u8; 3] = kani::any();
+        f[9] = pay[0]; f[13] = pay[1]; f[14] = pay[2];
+        let mut src = &f[..CUT];
+        let mut dec = FrameDecoder::new();
+        let r0 = dec.reset(&mut src);
+        if CUT < 6 { assert!(r0.is_err()); return; }
+        r0.unwrap();
+        let mut out = [0u8; 8];
+        let mut n = 0usize;
+        let mut failed = false;
+        if ONE_BY_ONE {
+            let mut k = 0;
+            while k < 2 && !failed && !dec.is_finished() {
+                match dec.decode_blocks(&mut src, BlockDecodingStrategy::UptoBlocks(1)) { Ok(_) => {}, Err(e) => { failed = true; core::mem::forget(e); } }
+                n += dec.read(&mut out[n..]).unwrap();
+                k += 1;
+            }
+        } else {
+            match dec.decode_blocks(&mut src, BlockDecodingStrategy::All) { Ok(_) => {}, Err(_) => failed = true }
+            n += dec.read(&mut out[n..]).unwrap();
+        }
+        if CUT == 15 { assert!(!failed && dec.is_finished()); assert!(dec.bytes_read_from_source() == 15); }
+        else { assert!(failed && !dec.is_finished()); }
+        let want = [pay[0], pay[0], pay[0], pay[1], pay[2]];
+        assert!(n <= 5);
+        if CUT == 15 { n += dec.read(&mut out[n..]).unwrap(); assert!(n == 5); }
+        let i: usize = kani::any();
+        kani::assume(i < n);
+        assert!(out[i] == want[i]);
+        core::mem::forget(dec);
+    }
+    #[kani::proof]
+    #[kani::unwind(9)]
+    #[kani::stub(crate::decoding::block_decoder::BlockDecoder::decompress_block, cut_decompress_block)]
+    #[kani::stub(crate::decoding::ringbuffer::RingBuffer::reserve_amortized, crate::decoding::ringbuffer::verif_kani::fixed_first_alloc)]
+    fn skeleton_cut12_one_by_one() { skeleton_cut::<12, true>(); }
+    #[kani::proof]
+    #[kani::unwind(9)]
+    #[kani::stub(crate::decoding::block_decoder::BlockDecoder::decompress_block, cut_decompress_block)]
+    #[kani::stub(crate::decoding::ringbuffer::RingBuffer::reserve_amortized, crate::decoding::ringbuffer::verif_kani::fixed_first_alloc)]
+    fn skeleton_cut15_all() { skeleton_cut::<15, false>(); }
+
+    // C06/F9: decode_from_to with the checksum arriving separately
+    #[kani::proof]
+    #[kani::unwind(9)]
+    #[kani::stub(crate::decoding::block_decoder::BlockDecoder::decompress_block, cut_decompress_block)]
+    #[kani::stub(crate::decoding::ringbuffer::RingBuffer::reserve_amortized, crate::decoding::ringbuffer::verif_kani::fixed_first_alloc)]
+    fn from_to_checksum_split() {
+        // single segment fcs=2, checksum flag; one raw block of 2 bytes (last); 4 byte checksum
+        let mut f: [u8; 15] = [0x28, 0xB5, 0x2F, 0xFD, 0x24, 0x02, (2 << 3) | 1, 0, 0, 7, 8, 1, 2, 3, 4];
+        let pay: [u8; 6] = kani::any();
+        f[9] = pay[0]; f[10] = pay[1]; f[11] = pay[2]; f[12] = pay[3]; f[13] = pay[4]; f[14] = pay[5];
+        let mut dec = FrameDecoder::new();
+        let mut out = [0u8; 8];
+        let (r1, w1) = dec.decode_from_to(&f[..11], &mut out).unwrap();
+        assert!(r1 == 11 && w1 == 2);
+        let (r2, w2) = dec.decode_from_to(&f[11..13], &mut out[w1..]).unwrap();
+        assert!(r2 <= 2);
+        core::mem::forget(dec);
+    }
+
+    // C11 ordering: symbolic window descriptor + limit, first use
+    #[kani::proof]
+    #[kani::unwind(9)]
+    #[kani::stub(crate::decoding::ringbuffer::RingBuffer::reserve_amortized, crate::decoding::ringbuffer::verif_kani::fixed_first_alloc)]
+    fn window_limit_first_use() {
+        let wd: u8 = kani::any();
+        let f: [u8; 6] = [0x28, 0xB5, 0x2F, 0xFD, 0x00, wd];
+        let limit: u64 = kani::any();
+        let mut dec = FrameDecoder::new();
+        dec.set_max_window_size(limit);
+        let eff = dec.max_window_size();
+        assert!(eff == if limit < crate::common::MAX_WINDOW_SIZE { limit } else { crate::common::MAX_WINDOW_SIZE });
+        let exp = (wd >> 3) as u64; let man = (wd & 7) as u64;
+        let base = 1u64 << (10 + exp);
+        let win = base + (base / 8) * man;
+        let r = dec.reset(&f[..]);
+        match r {
+            Ok(()) => { assert!(win <= eff); }
+            Err(FrameDecoderError::WindowSizeTooBig { requested, max }) => { assert!(requested == win && max == eff && win > eff); }
+            Err(_) => { assert!(win >= crate::common::MAX_WINDOW_SIZE); }
+        }
         core::mem::forget(dec);
     }
 }
